@@ -26,7 +26,7 @@ def main():
             r = res[sid]
             meta = json.load(open(os.path.join(HERE, "seeded", sid, "meta.json")))
             if "error" in r:
-                lines.append("| %s | %s | n/a (%s) | | | |" % (sid, r["property"], r["error"][:60]))
+                lines.append("| %s | %s | n/a | | %s | |" % (sid, r["property"], r["error"].replace("|", "/")[:420]))
                 continue
             n += 1
             also = [x for x in r["detected_by"] if x != r["property"]]
